@@ -339,6 +339,9 @@ func (c *HttpClient) openStream(
 	if err != nil {
 		return nil, err
 	}
+	if err := checkResponseFraming(response.body); err != nil {
+		return nil, response.wrap(err)
+	}
 	raw := bytes.NewReader(response.body)
 	var header *ClientBatch
 	if schemas.Header != nil {
@@ -503,6 +506,9 @@ func (c *HttpClient) post(ctx context.Context, endpoint string, body []byte) (cl
 }
 
 func (c *HttpClient) parseMain(response clientHTTPResponse, expected *arrow.Schema, tokenIsData bool) (*parsedClientStream, error) {
+	if err := checkResponseFraming(response.body); err != nil {
+		return nil, response.wrap(err)
+	}
 	raw := bytes.NewReader(response.body)
 	parsed, err := c.parseIPCStream(raw, expected, tokenIsData)
 	if err != nil {
@@ -736,6 +742,17 @@ func (p *parsedClientStream) releaseExceptFirst() {
 	if len(p.batches) > 1 {
 		p.batches = p.batches[:1]
 	}
+}
+
+// checkResponseFraming bounds the lengths declared by every IPC stream in a
+// response body before parseIPCStream hands it to arrow-go; see
+// checkIPCStreamFraming. The client accepts no bytes outside those streams,
+// so the whole body is checked up front.
+func checkResponseFraming(body []byte) error {
+	if err := checkIPCFraming(body); err != nil {
+		return &RpcError{Type: "ProtocolError", Message: fmt.Sprintf("read Arrow IPC response: %v", err)}
+	}
+	return nil
 }
 
 func (c *HttpClient) parseIPCStream(raw *bytes.Reader, expected *arrow.Schema, tokenIsData bool) (*parsedClientStream, error) {
